@@ -79,6 +79,8 @@ impl<R: Registry> VxRawTable<R> {
     #[verifier::external_body]
     pub fn new() -> (r: Self) ensures r@ == IMap::<archetype::IdentifierRef<R>, archetype::Archetype<R>>::empty() { unimplemented!() }
     #[verifier::external_body]
+    pub fn with_capacity(capacity: usize) -> (r: Self) ensures r@ == IMap::<archetype::IdentifierRef<R>, archetype::Archetype<R>>::empty() { unimplemented!() }
+    #[verifier::external_body]
     pub fn vx_get(&self, hash: u64, key: archetype::IdentifierRef<R>) -> (r: Option<&archetype::Archetype<R>>)
         requires hash == vx_hash(key),
         ensures r == (if self@.dom().contains(key) { Some(&self@[key]) } else { None::<&archetype::Archetype<R>> }) { unimplemented!() }
@@ -160,6 +162,8 @@ impl<R: Registry> VxBytesMap<R> {
     #[verifier::external_body]
     pub fn default() -> (r: Self) ensures r@ == IMap::<Seq<u8>, archetype::IdentifierRef<R>>::empty() { unimplemented!() }
     #[verifier::external_body]
+    pub fn vx_with_capacity(capacity: usize) -> (r: Self) ensures r@ == IMap::<Seq<u8>, archetype::IdentifierRef<R>>::empty() { unimplemented!() }
+    #[verifier::external_body]
     pub fn vx_get(&self, bytes: Ghost<Seq<u8>>) -> (r: Option<&archetype::IdentifierRef<R>>)
         ensures r == (if self@.dom().contains(bytes@) { Some(&self@[bytes@]) } else { None::<&archetype::IdentifierRef<R>> }) { unimplemented!() }
     /// `insert_unique_unchecked`: the caller promises the key is not present
@@ -189,6 +193,8 @@ impl<R: Registry> VxTypeMap<R> {
     pub uninterp spec fn view(&self) -> IMap<TypeId, archetype::IdentifierRef<R>>;
     #[verifier::external_body]
     pub fn default() -> (r: Self) ensures r@ == IMap::<TypeId, archetype::IdentifierRef<R>>::empty() { unimplemented!() }
+    #[verifier::external_body]
+    pub fn vx_with_capacity(capacity: usize) -> (r: Self) ensures r@ == IMap::<TypeId, archetype::IdentifierRef<R>>::empty() { unimplemented!() }
     #[verifier::external_body]
     pub fn get(&self, t: &TypeId) -> (r: Option<&archetype::IdentifierRef<R>>)
         ensures r == (if self@.dom().contains(*t) { Some(&self@[*t]) } else { None::<&archetype::IdentifierRef<R>> }) { unimplemented!() }
@@ -774,6 +780,51 @@ SHRINK_HINTS = [
     Hint("end", SH_END),
 ]
 
+DE_STEP = r"""proof {
+                        // the table just read went in under its own key; everything else is as before
+                        let n = vx_y0.len() as int;
+                        assert(vx_y0 == vx_prev.push(vx_new));
+                        assert(archetypes@ == vx_t0.insert(vx_new.key(), vx_new));
+                        assert forall|k: archetype::IdentifierRef<R>| archetypes@.dom().contains(k) implies (exists|j: int| 0 <= j < n && (#[trigger] vx_y0[j]).key() == k) by {
+                            if k == vx_new.key() { assert(vx_y0[n - 1].key() == k); }
+                            else {
+                                assert(vx_t0.dom().contains(k));
+                                let j = choose|j: int| 0 <= j < vx_prev.len() && (#[trigger] vx_prev[j]).key() == k;
+                                assert(vx_y0[j] == vx_prev[j]);
+                                assert(0 <= j < n && vx_y0[j].key() == k);
+                            }
+                        }
+                        vx_prev = vx_y0;
+                    }"""
+
+ARCHS_SERDE_PRELUDE = r"""
+// ---- R9/A10: the serde SeqAccess the archetypes visitor reads tables from.  Ghost state: the
+// tables yielded so far and the sum of their lengths (each row owns a 16-byte identifier in live
+// memory, so the sum fits usize: A5).
+#[verifier::external_body]
+#[verifier::accept_recursive_types(R)]
+pub struct VxTableSeq<R: Registry> { p: PhantomData<R> }
+#[verifier::external_body]
+pub struct VxErr { _p: () }
+impl<R: Registry> VxTableSeq<R> {
+    pub uninterp spec fn yielded(&self) -> Seq<archetype::Archetype<R>>;
+    pub uninterp spec fn total(&self) -> usize;
+    /// elements left in the (finite) input
+    pub uninterp spec fn remaining(&self) -> nat;
+    #[verifier::external_body]
+    pub fn vx_capacity_hint(&self) -> (n: usize) { unimplemented!() }
+    #[verifier::external_body]
+    pub fn vx_next_element(&mut self) -> (r: Result<Option<archetype::Archetype<R>>, VxErr>)
+        ensures
+            r is Ok && r->Ok_0 is Some ==> final(self).yielded() == old(self).yielded().push(r->Ok_0->0) && r->Ok_0->0.wf()
+                && final(self).total() == old(self).total() + r->Ok_0->0.length && final(self).remaining() < old(self).remaining(),
+            r is Ok && r->Ok_0 is None ==> final(self).yielded() == old(self).yielded() && final(self).total() == old(self).total(),
+    { unimplemented!() }
+}
+#[verifier::external_body]
+pub fn vx_custom_error() -> (e: VxErr) { unimplemented!() }
+"""
+
 def build(only=None, name="archs"):
     """`only`: names of Archetypes functions whose bodies are verified in this unit; every other
     extracted function is emitted with its contract and `external_body` (its body is verified in
@@ -793,6 +844,12 @@ def build(only=None, name="archs"):
     PRE = [("pre.archs_wf", "old(self).wf()")]
     u.impl("impl<R> Archetypes<R> where R: Registry", [
         Fn(AS, IMPL, "new", ret="r",
+           ensures=[("C13.archs.new_wf", "r.wf()"), ("C01.archs.new_empty", "r@ == IMap::<archetype::IdentifierRef<R>, archetype::Archetype<R>>::empty()")],
+           props=["C13", "C01"]),
+        Fn(AS, IMPL, "with_capacity", ret="r",
+           rewrites=[(r"RawTable::with_capacity\(capacity\)", "VxRawTable::with_capacity(capacity)", "R7"),
+                     (r"type_id_lookup: HashMap::with_capacity_and_hasher\(capacity, FnvBuildHasher::default\(\)\)", "type_id_lookup: VxTypeMap::vx_with_capacity(capacity)", "R7"),
+                     (r"foreign_identifier_lookup: HashMap::with_capacity_and_hasher\(\s*capacity,\s*FnvBuildHasher::default\(\),?\s*\)", "foreign_identifier_lookup: VxBytesMap::vx_with_capacity(capacity)", "R7")],
            ensures=[("C13.archs.new_wf", "r.wf()"), ("C01.archs.new_empty", "r@ == IMap::<archetype::IdentifierRef<R>, archetype::Archetype<R>>::empty()")],
            props=["C13", "C01"]),
         Fn(AS, IMPL, "get", ret="r",
@@ -944,6 +1001,38 @@ def build(only=None, name="archs"):
              attrs=["#[verifier::loop_isolation(false)]"],
              props=["C01", "C13", "C05"]),
       ])
+
+    ASD = "src/archetypes/impl_serde.rs"
+    u.text(ARCHS_SERDE_PRELUDE)
+    u.impl("impl<R> Archetypes<R> where R: Registry", [
+        Fn(ASD, r"^\s*impl<'a, 'de, R> Visitor<'de> for ArchetypesVisitor<'a, 'de, R>", "visit_seq", ret="r",
+           emit_name="vx_visit_seq", vis="pub", generics="", where="",
+           params="len: &mut usize, seq: &mut VxTableSeq<R>", ret_type="Result<Archetypes<R>, VxErr>",
+           rewrites=[(r"Archetypes::with_capacity\(cmp::min\(seq\.size_hint\(\)\.unwrap_or\(0\), 4096\)\)", "Archetypes::with_capacity(seq.vx_capacity_hint())",
+                      "R9: SeqAccess::size_hint clamp as an assumed-contract call (any capacity)"),
+                     (r"seq\.next_element::<Archetype<R>>\(\)\?", "seq.vx_next_element()?", "R9: SeqAccess::next_element::<Archetype<R>> as an assumed-contract call (A10; K-deser-arch decides the element visitor, bounded)"),
+                     (r"\*self\.len", "*len", "the visitor's `len: &mut usize` field is passed as a parameter"),
+                     (r"de::Error::custom\(format_args!\(.*?\)\)\);", "vx_custom_error());", "R10c: error-message construction dropped (the value of the error is not specified)"),
+                     ],
+           requires=[("pre.len_zero_based", "*old(len) == old(seq).total()"), ("pre.seq_fresh", "old(seq).yielded().len() == 0")],
+           ensures=[("C13.deserialize.wf", "r is Ok ==> r->Ok_0.wf() && vx_tables_wf(r->Ok_0@)"),
+                    ("C11.deserialize.tables_kept", "r is Ok ==> forall|j: int| 0 <= j < final(seq).yielded().len() ==> r->Ok_0@.dom().contains((#[trigger] final(seq).yielded()[j]).key()) && r->Ok_0@[final(seq).yielded()[j].key()] == final(seq).yielded()[j]"),
+                    ("C11.deserialize.nothing_else", "r is Ok ==> forall|k: archetype::IdentifierRef<R>| r->Ok_0@.dom().contains(k) ==> (exists|j: int| 0 <= j < final(seq).yielded().len() && (#[trigger] final(seq).yielded()[j]).key() == k)"),
+                    ("C11.deserialize.distinct_component_sets", "r is Ok ==> forall|a: int, b: int| 0 <= a < b < final(seq).yielded().len() ==> vx_key_bits((#[trigger] final(seq).yielded()[a]).key()) != vx_key_bits((#[trigger] final(seq).yielded()[b]).key())"),
+                    ("C01.deserialize.len", "r is Ok ==> *final(len) == final(seq).total()")],
+           loops=[Loop(invariant=[
+               ("de.prev", "vx_prev == seq.yielded()"),
+               ("de.wf", "archetypes.wf() && vx_tables_wf(archetypes@)"),
+               ("de.len", "*len == seq.total()"),
+               ("de.kept", "forall|j: int| 0 <= j < seq.yielded().len() ==> archetypes@.dom().contains((#[trigger] seq.yielded()[j]).key()) && archetypes@[seq.yielded()[j].key()] == seq.yielded()[j]"),
+               ("de.nothing_else", "forall|k: archetype::IdentifierRef<R>| archetypes@.dom().contains(k) ==> (exists|j: int| 0 <= j < seq.yielded().len() && (#[trigger] seq.yielded()[j]).key() == k)"),
+               ("de.distinct", "forall|a: int, b: int| 0 <= a < b < seq.yielded().len() ==> vx_key_bits((#[trigger] seq.yielded()[a]).key()) != vx_key_bits((#[trigger] seq.yielded()[b]).key())"),
+           ], decreases="seq.remaining()")],
+           hints=[Hint("start", "let ghost mut vx_prev = seq.yielded();"),
+                  Hint("before", "let ghost vx_y0 = seq.yielded(); let ghost vx_t0 = archetypes@; let ghost vx_new = archetype;", anchor=r"\*len \+= archetype\.len\(\);"),
+                  Hint("after_block", DE_STEP, anchor=r"if let Err\(archetype\) = archetypes\.insert\(archetype\)")],
+           props=["C11", "C13", "C06", "C01"]),
+    ])
 
     AE = "src/archetypes/impl_eq.rs"
     EQIMPL = r"^impl<R> cmp::PartialEq for Archetypes<R>"
